@@ -34,13 +34,15 @@ pub fn run(o: &Opts) {
   let mut sampled = false;
   let langs = [SupportLang::TypeScript, SupportLang::JavaScript, SupportLang::Python, SupportLang::Rust, SupportLang::Go, SupportLang::Java, SupportLang::Json];
   let nl = if o.thorough { langs.len() } else { 3 };
+  // TypeScript / JavaScript are always among the languages (the object-literal layout needs them)
   for k in 0..nl {
-    let lang = langs[(o.seed as usize + k * 2) % langs.len()];
+    let lang = if k == 0 { langs[(o.seed as usize) % 2] } else { langs[(o.seed as usize + k * 2) % langs.len()] };
     let ext = corpus::lang_ext(lang);
     for round in 0..rounds {
       let dir = fresh_dir(&o.out, &format!("e_{lang}_{round}"));
       let srcs = corpus::clean_sources(lang, &mut rng, 1, 500);
       let Some(src) = srcs.first().cloned() else { continue };
+      let src = if round % 4 == 3 && matches!(lang, SupportLang::TypeScript | SupportLang::JavaScript) { format!("{src}\nvar o = {{ b: 123, c: 4, }};\n") } else { src };
       let g = corpus::parse(lang, &src);
       let nodes = corpus::all_nodes(g.root());
       let ing = harvest(lang, &nodes, &mut rng);
@@ -48,7 +50,8 @@ pub fn run(o: &Opts) {
       let mut frs = gen_fix_rules(&mut rng, lang, &ing.patterns, 1);
       if round % 4 == 3 && matches!(lang, SupportLang::TypeScript | SupportLang::JavaScript) {
         // a fix whose template reproduces the matched node while the expansion widens the replaced range
-        frs = vec![crate::c18::FixRule { yaml: format!("id: fx0\nlanguage: {lang}\nmessage: fix 0\nrule:\n  kind: pair\nfix:\n  template: $P\n  expandEnd: {{regex: '^,$'}}\n").replace("$P", "X: 0"), expands: true }];
+        // (the rule captures the whole node in $P and the template is just $P: the replacement equals the node's text)
+        frs = vec![crate::c18::FixRule { yaml: format!("id: fx0\nlanguage: {lang}\nmessage: fix 0\nrule:\n  kind: pair\n  pattern: $P\nfix:\n  template: $P\n  expandEnd: {{regex: '^,$'}}\n"), expands: true }];
       }
       let Some(fr) = frs.first() else { continue };
       let Some(rules) = load_rules(&[fr.yaml.clone()]) else { out.count("rule:rejected"); continue };
@@ -197,8 +200,47 @@ pub fn run(o: &Opts) {
       }
     }
   }
+  // ---- two rules on one document: a rule WITHOUT fix whose match encloses a fixable match of another rule;
+  //      fix-all must still offer the inner fix (what --update-all and the library apply)
+  {
+    let dir = fresh_dir(&o.out, "enclosing");
+    let src = "console.log(foo(1))\nfoo(2)\nconsole.log(3, foo(4), foo(5))\n";
+    let yamls = vec![
+      "id: no-log\nlanguage: TypeScript\nmessage: m\nrule:\n  pattern: console.log($$$ARGS)\n".to_string(),
+      "id: foo-to-bar\nlanguage: TypeScript\nmessage: m\nrule:\n  pattern: foo($X)\nfix: bar($X)\n".to_string(),
+    ];
+    let rules = load_rules(&yamls).unwrap();
+    let g = SupportLang::TypeScript.ast_grep(src);
+    let fixr = &rules[1];
+    let fixer = fixr.matcher.fixer.as_ref().unwrap();
+    let mut want: Vec<(usize, usize, String)> = g.root().dfs().filter_map(|n| fixr.matcher.match_node(n)).map(|nm| { let e = nm.make_edit(&fixr.matcher, fixer); (e.position, e.position + e.deleted_length, String::from_utf8_lossy(&e.inserted_text).to_string()) }).collect();
+    want.sort();
+    let uri = format!("file://{}/a.ts", std::fs::canonicalize(&dir).unwrap().to_string_lossy());
+    let fixall = json!({"jsonrpc": "2.0", "id": 10, "method": "textDocument/codeAction", "params": {"textDocument": {"uri": uri}, "range": {"start": {"line": 0, "character": 0}, "end": {"line": 0, "character": 0}}, "context": {"diagnostics": [], "only": ["source.fixAll"]}}});
+    out.checked();
+    out.count("layout:fix-inside-fixless-match");
+    match run_lsp(load_rules(&yamls).unwrap(), &dir, &[did_open(&uri, "typescript", 1, src), fixall]) {
+      Ok(resp) => {
+        let mut got = vec![];
+        for m in resp.get(1).unwrap_or(&vec![]).iter().filter(|m| m["id"] == 10 && m.get("result").is_some()) {
+          for a in m["result"].as_array().cloned().unwrap_or_default() {
+            for e in a["edit"]["changes"][&uri].as_array().cloned().unwrap_or_default() {
+              let r = &e["range"];
+              got.push((pos_to_offset(src, r["start"]["line"].as_u64().unwrap_or(0) as usize, r["start"]["character"].as_u64().unwrap_or(0) as usize),
+                        pos_to_offset(src, r["end"]["line"].as_u64().unwrap_or(0) as usize, r["end"]["character"].as_u64().unwrap_or(0) as usize), e["newText"].as_str().unwrap_or("").to_string()));
+            }
+          }
+        }
+        got.sort();
+        if got != want {
+          out.oracle_fail("", &format!("language server fix-all with a fix-less rule enclosing fixable matches offers {:?}, the library's edits for the fixable rule are {:?}", got, want), json!({"stream": "c08", "front": "lsp-fix-all-enclosing", "rules": yamls, "source": src}));
+        }
+      }
+      Err(e) => out.oracle_fail("", &format!("language server failed: {e}"), json!({"stream": "c08"})),
+    }
+  }
   out.finish("one fix rule (string / object form, empty, wrapping, duplicating, multi-byte templates, expandStart / expandEnd, a template that reproduces the node while the expansion widens the range) on corpus sources: \
               the edit (byte range + replacement) of every match from NodeMatch::make_edit is the reference; compared with `sg scan --json` (replacement, replacementOffsets), the bytes written by `sg scan -U`, \
-              AstGrep::replace and Node::replace through a BORROWED fixer, the `fixed` text of the `sg test -U` snapshot, and the language server's quick-fix and fix-all code actions (LSP positions converted back to byte offsets). \
+              AstGrep::replace and Node::replace through a BORROWED fixer, the `fixed` text of the `sg test -U` snapshot, and the language server's quick-fix and fix-all code actions (LSP positions converted back to byte offsets); plus a document where a fix-less rule's match encloses fixable matches of another rule (fix-all must still offer them). \
               non-trivial = the rule has a match");
 }
